@@ -99,14 +99,14 @@ func (m *gmodel) step(op world.Op) bool {
 		g.kind, g.owner, g.touched, g.stubEpoch, g.nClauses = kCb, op.B, op.B, false, 0
 	case "ret", "retseq":
 		g := m.g(op.T)
-		if !m.usable(op.T, op.B) || g.stubEpoch || t.Typ.NumOut() == 0 {
+		if !m.usable(op.T, op.B) || g.stubEpoch || (t.Typ.NumOut() == 0 && op.K == "retseq") {
 			return false
 		}
 		g.kind, g.owner, g.touched, g.stubEpoch, g.nClauses = kStub, op.B, op.B, true, 0
 		g.handle, g.handleDead = false, false
 	case "when":
 		g := m.g(op.T)
-		if !m.usable(op.T, op.B) || !t.Simple || g.nClauses >= 2 || t.Typ.NumOut() == 0 {
+		if !m.usable(op.T, op.B) || !t.Simple || g.nClauses >= 2 {
 			return false
 		}
 		if g.kind != kStub {
